@@ -9,6 +9,7 @@ that fires after the node's duration and then calls the function on the loop).
 from __future__ import annotations
 
 import asyncio
+import weakref
 import asyncio.base_events
 import concurrent.futures
 from typing import Any, Callable, List, Optional
@@ -43,6 +44,20 @@ class _Selector:
         pass
 
 
+class _OrdTask(asyncio.Task):  # type: ignore[type-arg]
+    """A task whose hash is its creation number on the loop: plain sets / WeakSets of tasks then iterate in an order
+    that is the same in the symbolic and the concrete execution of a path (addresses are not)."""
+    _vseq = 0
+
+    def __init__(self, coro: Any, *, loop: Any, **kw: Any) -> None:
+        loop._task_seq += 1
+        self._vseq = loop._task_seq  # before the base initialiser, which already puts the task into a WeakSet
+        super().__init__(coro, loop=loop, **kw)
+
+    def __hash__(self) -> int:
+        return self._vseq
+
+
 class VLoop(asyncio.base_events.BaseEventLoop):
     def __init__(self, *, max_iterations: int = 2000, tick: int = 0,
                  duration_of: Optional[Callable[[], Any]] = None) -> None:
@@ -53,7 +68,11 @@ class VLoop(asyncio.base_events.BaseEventLoop):
         self.iterations = 0
         self.max_iterations = max_iterations
         self.tick = tick
-        self.tasks: List[asyncio.Task] = []
+        # weak: the harness must not keep a task alive that the engine has let go of (a task nobody references is
+        # destroyed by CPython when it finishes, and its exception with it)
+        self._task_refs: List[Any] = []
+        self._task_seq = 0
+        self._kept: List[Any] = []
         self.errors: List[dict] = []
         self.duration_of = duration_of  # callable giving the duration for the current executor submission
         self.on_iteration: Optional[Callable[["VLoop"], None]] = None
@@ -72,15 +91,30 @@ class VLoop(asyncio.base_events.BaseEventLoop):
 
     @staticmethod
     def _factory(loop: "VLoop", coro: Any, **kw: Any) -> asyncio.Task:
-        task = asyncio.Task(coro, loop=loop, **kw)
-        loop.tasks.append(task)
+        task = _OrdTask(coro, loop=loop, **kw)
+        loop._task_refs.append(weakref.ref(task))
         return task
+
+    @property
+    def tasks(self) -> List[asyncio.Task]:
+        # not under tracing: CrossHair patches weakref.ref.__call__ with a full gc.collect() per dereference
+        from crosshair.tracers import NoTracing, is_tracing
+        import contextlib
+
+        with (NoTracing() if is_tracing() else contextlib.nullcontext()):
+            return [t for t in (r() for r in self._task_refs) if t is not None]
+
+    @property
+    def n_created(self) -> int:
+        return self._task_seq
 
     def call_exception_handler(self, context: dict) -> None:  # type: ignore[override]
         exc = context.get("exception")
         if exc is not None and is_control_flow(exc):
             cf_guard.note(exc)
-        self.errors.append(context)
+        # like the default handler, keep no reference to the future/task/handle: storing the context itself would
+        # resurrect a task that is being destroyed and keep it in any weak registry of the code under test
+        self.errors.append({"message": context.get("message"), "exception": exc})
 
     def _run_once(self) -> None:  # type: ignore[override]
         self.iterations += 1
@@ -123,6 +157,14 @@ class VLoop(asyncio.base_events.BaseEventLoop):
         return fut
 
     # -- helpers for harnesses --------------------------------------------------
+    def run_until_complete(self, future: Any) -> Any:  # type: ignore[override]
+        try:
+            return super().run_until_complete(future)
+        finally:
+            # once the loop has stopped, whatever is still alive stays alive until the observation has been taken (a
+            # deadlocked set of tasks is cyclic garbage as soon as the frames above are unwound)
+            self._kept = self.tasks
+
     def run_to_verdict(self, coro: Any) -> tuple:
         """Run coro; returns (kind, payload): ('done', result) | ('raised', exc) |
         ('deadlock', None) | ('livelock', None)."""
@@ -179,6 +221,7 @@ class VLoop(asyncio.base_events.BaseEventLoop):
                         pass
             self._ready.clear()
             self._scheduled.clear()
+            self._kept = []
             try:
                 self.close()
             except BaseException:  # noqa: BLE001
